@@ -4,6 +4,8 @@ sys.path.insert(0, os.path.dirname(os.path.abspath(__file__)))
 import importlib
 import heap_mark
 importlib.reload(heap_mark)
+import builtin as _builtin_spec  # the model of Heap::put that the opaque-heap groups assume (shared text)
+importlib.reload(_builtin_spec)
 
 
 PRELUDE = r'''
@@ -65,6 +67,18 @@ impl Heap {
 /// the value `x.into()` produces for the `Into<VCell>` argument of put / maybe_put
 pub open spec fn into_vcell<T: Into<VCell>>(x: T) -> VCell { <T as vstd::std_specs::convert::IntoSpec<VCell>>::into_spec(x) }
 pub open spec fn into_obeys<T: Into<VCell>>() -> bool { <T as vstd::std_specs::convert::IntoSpec<VCell>>::obeys_into_spec() }
+/// the two views the opaque-heap groups (builtins, cont, compile, ...) reason with, defined on the real representation
+pub open spec fn m_deref(h: Heap, c: VCell) -> VCell { match c { VCell::Ptr(p) => if p < h.len() { h.cells()[p as int] } else { VCell::Undefined }, _ => c } }
+pub open spec fn m_live(h: Heap, c: VCell) -> bool { c matches VCell::Ptr(p) && p < h.len() && h.state(p as int) != 0 }
+/// the model of Heap::put those groups ASSUME (specs/builtin.py: put_model), here over the concrete views: Heap::put is verified to satisfy it
+pub open spec fn put_model_c(h0: Heap, h1: Heap, x: VCell, r: VCell) -> bool {
+PUT_MODEL_C_BODY
+}
+pub open spec fn m_len(h: Heap) -> nat { h.len() as nat }
+/// the model of Heap::get_at_index_mut those groups assume (specs/builtin.py: GIM_MODEL_TEMPLATE), over the concrete views
+pub open spec fn gim_model_c(h0: Heap, h1: Heap, p: usize, r0: VCell, r1: VCell) -> bool {
+GIM_MODEL_C_BODY
+}
 /// values maybe_put returns as they are instead of boxing them
 pub open spec fn is_immediate(v: VCell) -> bool { v is Number || v is Bool || v is Char || v is Nil || v is Void || v is Undefined }
 /// p was free (or beyond the old heap) and is now allocated
@@ -270,7 +284,7 @@ UNITS = [{
     'wrap': ['struct Heap'],
     'wraps_types': ['Heap'],
     'uses_types': ['VCell', 'Cell', 'Continuation', 'Lambda', 'BindingSource', 'RcDeref', 'RcAsRef', 'Vector', 'LexicalEnvironment', 'VectorView', 'EnvView'],
-    'prelude': PRELUDE + heap_mark.MARK_PRELUDE,
+    'prelude': PRELUDE.replace('GIM_MODEL_C_BODY', _builtin_spec.GIM_MODEL_TEMPLATE.replace('DEREF', 'm_deref').replace('LIVE', 'm_live').replace('LEN', 'm_len')).replace('PUT_MODEL_C_BODY', _builtin_spec.PUT_MODEL_TEMPLATE.replace('DEREF', 'm_deref').replace('LIVE', 'm_live')) + heap_mark.MARK_PRELUDE,
     'fns': {
         # f64 arithmetic in the growth policy: contract assumed (Kani-bounded harness heap_grow spot-checks it)
         'impl Heap::grow': {
@@ -334,6 +348,8 @@ UNITS = [{
                 (['C18'], '!(into_vcell(vcell) is Symbol) ==> final(self).table() == old(self).table()'),
                 (H, '!(into_vcell(vcell) is Symbol) && !(into_vcell(vcell) is Ptr) ==> (r matches VCell::Ptr(p) && fresh_cell(*old(self), *final(self), p as int) && final(self).cells()[p as int] == into_vcell(vcell))'),
                 (H, 'into_vcell(vcell) is Ptr ==> r == into_vcell(vcell) && final(self).cells() == old(self).cells() && final(self).gcmap() == old(self).gcmap()'),
+                # the model the opaque-heap groups assume for this function (same text), proved here from the real body
+                (['C14', 'C05', 'C04'], 'put_model_c(*old(self), *final(self), into_vcell(vcell), r)'),
             ],
         },
         'impl Heap::maybe_put': {
@@ -368,7 +384,9 @@ UNITS = [{
             # hands out exactly one cell: nothing else of the heap changes through the returned reference
             'ensures': [(H, '*r == old(self).cells()[ptr as int]'),
                         (H, 'final(self).cells() == old(self).cells().update(ptr as int, *final(r))'),
-                        (H, 'final(self).gcmap() == old(self).gcmap() && final(self).free_cells() == old(self).free_cells() && final(self).table() == old(self).table() && final(self).chunk() == old(self).chunk()')],
+                        (H, 'final(self).gcmap() == old(self).gcmap() && final(self).free_cells() == old(self).free_cells() && final(self).table() == old(self).table() && final(self).chunk() == old(self).chunk()'),
+                        # the model the opaque-heap groups assume for this function (same text), proved here
+                        (['C14'], 'gim_model_c(*old(self), *final(self), ptr, *r, *final(r))')],
         },
         'impl Heap::capacity': {'props': H, 'ensures': [(H, 'r == self.len()')]},
         'impl Heap::free_size': {'props': H, 'ensures': [(H, 'r == self.free_cells().len()')]},
